@@ -90,12 +90,3 @@ Proof. unfold dyn_check. intros H. apply andb_true_iff in H. destruct H as [HV H
     specialize (CE k HE). cbv zeta in CE. apply andb_true_iff in CE. destruct CE as [_ C2].
     intros A B. rewrite A, B, Nat.eqb_refl in C2. simpl in C2. b2p; auto. Qed.
 
-(* ================================================================= sequences *)
-Fact run_refines cf l : forall s, WF s -> Dyn s -> legal_run cf s l = true ->
-  trace cf s l = gtrace (abs s) l /\ abs (run cf s l) = grun (abs s) l /\ WF (run cf s l) /\ Dyn (run cf s l).
-Proof. induction l as [|o l IH]; intros s W D L; simpl; auto.
-  simpl in L. repeat rewrite andb_true_iff in L. destruct L as ((R & LG) & L).
-  destruct (step_refines cf s o W D R LG) as (A & T & W1 & D1).
-  destruct (IH (fst (step cf s o)) W1 D1 L) as (TR & AB & W2 & D2).
-  rewrite <- A. split; [|split; [|split]]; auto.
-  rewrite TR, T, obs_abs. reflexivity. Qed.
